@@ -79,7 +79,15 @@ func extract(ctx context.Context, rs io.ReadSeeker, scanFunc func() osm.Scanner,
 		objChan := make(chan osm.Object, nprocs)
 		for i := 0; i < nprocs; i++ {
 			eg.Go(func() error {
+				// A worker that meets an object it cannot handle remembers the
+				// error but keeps receiving until the channel is closed:
+				// if it returned at once, the reading loop below would block
+				// forever as soon as no worker is left to receive.
+				var err error
 				for obj := range objChan {
+					if err != nil {
+						continue
+					}
 					verifHook(verifWorkerRecv, obj)
 					switch objType := obj.(type) {
 					case *osm.Node:
@@ -102,11 +110,11 @@ func extract(ctx context.Context, rs io.ReadSeeker, scanFunc func() osm.Scanner,
 						}
 					case *osm.Note, *osm.Bounds, *osm.User:
 					default:
-						return fmt.Errorf("unknown type %T", objType)
+						err = fmt.Errorf("unknown type %T", objType)
 					}
 					verifHook(verifWorkerDone, obj)
 				}
-				return nil
+				return err
 			})
 		}
 
